@@ -327,6 +327,13 @@ func (s *Solver) checkCB(extra *Term) (SatResult, []uint64) {
 		s.MaxTime = d
 	}
 	s.Queries++
+	if d > time.Second && os.Getenv("VERIF_SLOWQ") != "" {
+		ex := ""
+		if extra != nil {
+			ex = extra.str(9)
+		}
+		fmt.Fprintf(os.Stderr, "SLOWQ %.1fs %s: %s\n", d.Seconds(), res, ex)
+	}
 	if res == Sat && s.pendingCB != nil {
 		s.pendingCB(s.getValues)
 	}
